@@ -248,6 +248,11 @@ func (p *Prog) parametric(g *Func) bool {
 	if p.constModeParam(g) {
 		return true
 	}
+	// a method of a table row: every call is made on a package-level record that only ever holds its literal
+	// initialiser (the row's fields select the behaviour)
+	if p.tableRowMethod(g) {
+		return true
+	}
 	for _, pr := range g.Params {
 		T := pr.Type()
 		if _, isFn := T.Underlying().(*types.Signature); isFn {
@@ -266,6 +271,67 @@ func (p *Prog) parametric(g *Func) bool {
 		}
 	}
 	return false
+}
+
+// tableRowMethod: g is a method of a module record type and every call of it in the module has a package-level
+// variable holding only its literal initialiser as its receiver.
+func (p *Prog) tableRowMethod(g *Func) bool {
+	if g.Recv == nil || g.Obj == nil || isKeeperType(g.Recv.Type()) {
+		return false
+	}
+	T := g.Recv.Type()
+	if pt, ok := T.Underlying().(*types.Pointer); ok {
+		T = pt.Elem()
+	}
+	if namedStructAny(T) == "" {
+		return false
+	}
+	calls := 0
+	for _, f := range p.Funcs {
+		if f.Body == nil || f.Parent != nil || !f.isHandWritten() {
+			continue
+		}
+		info := f.Pkg.TypesInfo
+		bad := false
+		ast.Inspect(f.Body, func(n ast.Node) bool {
+			c, ok := n.(*ast.CallExpr)
+			if !ok || bad {
+				return !bad
+			}
+			se, ok := ast.Unparen(c.Fun).(*ast.SelectorExpr)
+			if !ok || info.Uses[se.Sel] != types.Object(g.Obj) {
+				return true
+			}
+			calls++
+			id, ok := ast.Unparen(se.X).(*ast.Ident)
+			if !ok {
+				bad = true
+				return false
+			}
+			v, ok := info.Uses[id].(*types.Var)
+			if !ok || v.Pkg() == nil || v.Parent() != v.Pkg().Scope() || p.globalLiteral(v) == nil {
+				bad = true
+				return false
+			}
+			return true
+		})
+		if bad {
+			return false
+		}
+	}
+	return calls >= 2
+}
+
+// namedStructAny: the name of a named struct type declared in the module (any package), "" otherwise.
+func namedStructAny(T types.Type) string {
+	nt, ok := types.Unalias(T).(*types.Named)
+	if !ok || nt.Obj().Pkg() == nil || !strings.HasPrefix(nt.Obj().Pkg().Path(), modPath) {
+		return ""
+	}
+	if _, ok := nt.Underlying().(*types.Struct); !ok {
+		return ""
+	}
+	return nt.Obj().Name()
 }
 
 // inlineHost: the function whose paths contain f's body (f itself unless f is an inline target).
